@@ -92,6 +92,18 @@ def build(rng, kind, typ, nf, form, ptol=None, etol=None, limit=None, bad=False)
         if typ in ('TE10', 'UE10', 'UE14', 'E12'):
             # leakage needs one standard without a path between the ports that is fully known
             sc.add_double_reflect(1, 2, calsim.MATCH, calsim.MATCH)
+    elif kind == 'trla':
+        # not TRL: the reflect is unknown on port 1 only, port 2 sees a known short (10 equations, 9 unknowns: iterative path)
+        R = -0.9 * cmath.exp(1j * rng.uniform(-0.3, 0.3))
+        th = math.radians(rng.uniform(40, 140))
+        L = 0.98 * cmath.exp(-1j * th)
+        sc.add_through(1, 2)
+        hr = sc.unknown(guess_near(rng, R, 0.1), R)
+        sc.std2r(1, 2, hr, calsim.SHORT, R, -1.0)
+        hl = sc.unknown(cmath.exp(-1j * (th + math.radians(rng.uniform(-10, 10)))), L)
+        sc.line(1, 2, (calsim.MATCH, hl, hl, calsim.MATCH), [[0, L], [L, 0]])
+        if typ in ('TE10', 'UE10'):
+            sc.add_double_reflect(1, 2, calsim.MATCH, calsim.MATCH)
     elif kind == 'solr':
         for port in (1, 2):
             for code in (calsim.SHORT, calsim.OPEN, calsim.MATCH):
@@ -162,11 +174,11 @@ def run(chk):
     reps = (1 if quick else 10) * (3 if broken else 1)
     scs = []
     for _ in range(reps):
-        for kind in ('extra1', 'trl', 'solr', 'repeat'):
+        for kind in ('extra1', 'trl', 'trla', 'solr', 'repeat'):
             for typ in calsim.TYPES:
                 # two-port self-calibration recipes (TRL, unknown through) are posed for the 8- and 10-term models; the 12-/14-term
                 # models with their per-column systems are not determined by them
-                if kind in ('trl', 'solr') and typ in ('UE14', 'E12'):
+                if kind in ('trl', 'trla', 'solr') and typ in ('UE14', 'E12'):
                     continue
                 for form in (('m',) if quick else ('m', 'ab')):
                     sc = build(rng, kind, typ, rng.randint(1, 2), form)
